@@ -487,12 +487,12 @@ def t3_attr_layouts(full):
     lns = [0x010000, 0x010001,                                          # readable: Ln with a non-zero high byte
            0x0FFFF1, 0x100000, 0x7FFFFF, 0x800000, 0xFF0000, 0xFFFFFF]  # beyond Nmaxb*16: no NDEF
     if full:
-        lns += [0x00FFFF, 0x0100FF, 0x01FFFF, 0x020000, 0x0FFFEF, 0x0FFFF0]
+        lns += [0x00FFFF, 0x0100FF, 0x01FFFF, 0x020000, 0x0FFFF0]
     for ln in lns:
         out.append(dict(big, ln=ln))
     edge = [(4097, 0x10010), (4097, 0x10011), (4096, 0x10000), (4096, 0x10001)]
     if full:
-        edge += [(4097, 0x10000), (0x1001, 0xFFFF), (0xFFFF, 0x0FFFF0)]
+        edge += [(4097, 0x10000), (0x1001, 0xFFFF)]
     for nmaxb, ln in edge:
         out.append(dict(nbr=12, nbw=8, nmaxb=nmaxb, lazy=True, gen=4, ln=ln))
     small = dict(nbr=4, nbw=3, nmaxb=6, lazy=True, gen=7, ln=40)
@@ -533,6 +533,14 @@ def rand_t4_layout(rnd, safe):
         L["mle"] = rnd.choice([257, 300, 0xFFFF])
     L["oldlen"] = rnd.choice([0, rnd.randint(0, mfs - ns), mfs - ns])
     return L
+
+
+# capability containers with the file-size field at its extremes (16 bit / 32 bit); only the first
+# 32 KiB of such a file are addressed (READ/UPDATE BINARY offsets are 15 bit, nfcpy has no ODO commands)
+T4_WIDE = [
+    dict(ver=0x30, tlv=6, mle=255, mlc=255, mfs=0x10040, oldlen=30),
+    dict(ver=0x20, tlv=4, mle=255, mlc=255, mfs=0xFFFE, oldlen=10),
+]
 
 
 def mk(kind, L, op, n, seed, **kw):
@@ -578,6 +586,11 @@ def gen_cases(pid, tier, seed):
         for L in T4_LAYOUTS + T4_C01_ONLY + r4:
             add("t4", L, "read")
             for m in t4_lengths(L, rnd, full):
+                add("t4", L, "write", mlen=m)
+        for L in T4_WIDE:
+            cap = L["mfs"] - (L["tlv"] - 2)
+            add("t4", L, "read")
+            for m in [20, cap + 1] + ([0, 300] if full else []):
                 add("t4", L, "write", mlen=m)
     elif pid == "C02":
         def cuts(ncmds):
@@ -890,10 +903,14 @@ def conformance_stage(ck, pid, tier, seed):
         ck.sample(dict(trace=tr["id"], layout=c["layout"], first_events=evs))
     ck.assume(
         "T3/T4 part: exhaustive runs use scaled constants (block size 2, Nmaxb <= 4; byte base 4, file <= 12 bytes, "
-        "short-APDU limits 4); real constants (16-byte blocks, Nmaxb <= 300, files <= 2 KB, MLc/MLe 1..4096) are "
-        "exercised by trace validation of sampled layouts x boundary lengths x cut points only",
-        "T4: NDEF file size <= 0x7FFF, read access granted; C02 is not demanded when MLc < NLEN size (no writer can "
-        "update NLEN with one command); T3: Nbr >= 1, announced Nbr/Nbw = what the tag accepts, Ln <= Nmaxb*16",
+        "short-APDU limits 4); real constants (16-byte blocks, write round trips with Nmaxb <= 4200 incl. one above "
+        "64 KiB, files <= 2 KB, MLc/MLe 1..65535) are exercised by trace validation of sampled layouts x boundary "
+        "lengths x cut points only; the READ path is exercised with every attribute field at its extremes (Nmaxb up "
+        "to 65535, Ln up to 2^24-1, Nbr/Nbw 0..255, all flag values, wrong checksums) on lazily served tags, the "
+        "16 raw attribute bytes being parsed by the TLA+ module",
+        "T4: only offsets <= 0x7FFF of the NDEF file are addressed (file sizes up to 0x10040 are announced), read "
+        "access granted; C02 is not demanded when MLc < NLEN size (no writer can update NLEN with one command); T3 "
+        "writes: 1 <= Nbw <= 13 (12 above 255 blocks), announced Nbr/Nbw = what the tag accepts",
         "a Write Without Encryption / UPDATE BINARY command is executed completely or not at all by the tag; a power "
         "cut falls between two commands (the answer to the last executed command is lost)")
 
